@@ -1008,8 +1008,8 @@ func (ds *AnySource) ChangeTriggerState(state *FullTriggerState) error {
 		return fmt.Errorf("got ConfigureTriggers with no valid ChannelIndices")
 	}
 	for _, channelIndex := range state.ChannelIndices {
-		if channelIndex >= ds.nchan {
-			return fmt.Errorf("channelIndex %v is >= ds.nchan %v", channelIndex, ds.nchan)
+		if channelIndex < 0 || channelIndex >= ds.nchan {
+			return fmt.Errorf("channelIndex %v is not in the range [0, ds.nchan=%v)", channelIndex, ds.nchan)
 		}
 	}
 	for _, channelIndex := range state.ChannelIndices {
@@ -1058,12 +1058,16 @@ func (ds *AnySource) ChangeGroupTrigger(turnon bool, gts *GroupTriggerState) err
 	if turnon {
 		changer = ds.broker.AddConnection
 	}
+	// Apply every valid connection; report the first invalid one (if any) to the caller.
+	var firstErr error
 	for source, receivers := range gts.Connections {
 		for _, receiver := range receivers {
-			changer(source, receiver)
+			if err := changer(source, receiver); err != nil && firstErr == nil {
+				firstErr = err
+			}
 		}
 	}
-	return nil
+	return firstErr
 }
 
 // StopTriggerCoupling turns off all trigger coupling, including all group triggers and FB/Err coupling.
@@ -1099,6 +1103,9 @@ func (ds *AnySource) writeNPZData(file *os.File) error {
 // in the form of a `storeableDataBlock` struct, then when it's done, writes that info
 // to the numpy-style npz file `file`. Finally, it closes that file and renames it to `finalName`.
 func (ds *AnySource) ArchiveDataBlock(N int, file *os.File, finalName string) error {
+	if N <= 0 {
+		return fmt.Errorf("cannot archive a raw data block of %d samples, need a positive number", N)
+	}
 	if ds.archiveBlock.active {
 		return fmt.Errorf("cannot start archive block, because one is already being acquired")
 	}
